@@ -658,13 +658,13 @@ inline ReadResult read_tree(const Tree &t, const Params &p, const std::string &r
     } else {
       r.hist_mode = true;
       econf_file **h = (econf_file **)-1;
-      size_t n = 0;
+      size_t n = 5;  // (a caller's re-used variable: the history size is an output only)
       if (mode == RM_HIST)
         r.rc = econf_readDirsHistory(&h, &n, a0, a1, name_arg, sfx_arg, D.c_str(), C.c_str());
       else
         r.rc = econf_readDirsHistoryWithCallback(&h, &n, a0, a1, name_arg, sfx_arg, D.c_str(), C.c_str(), tree_callback, cbdata);
       r.hist = h;
-      r.hist_size = n;
+      r.hist_size = (r.rc != ECONF_SUCCESS && n == 5) ? 0 : n;
     }
 #pragma GCC diagnostic pop
   }
